@@ -1146,6 +1146,12 @@ def register(M):
             if vv.kind == 'series':
                 raise AnalysisError('numpy reduction over pandas Series not modelled', node)
             elems, had_masked = reduce_elems(interp, vv, node, skip_masked=ma_aware)
+            if fname.startswith('nan'):
+                elems = [e for e in elems if e != X.NAN]
+                if not elems:
+                    return Sc(X.NAN, 'f8')
+                d = X.red(fname[3:], elems)
+                return Sc(d, 'f8')
             if not elems:
                 if had_masked:
                     return MASKED
